@@ -141,7 +141,33 @@ static void bodyEdit(const std::string& dir, const std::string& input, Digest& d
     OPB; std::string p = dir + "/edited.c3d"; oc = guarded([&] { c->write(p); }); d.add(std::string("save ") + outcomeName(oc)); fileTo(d, p, "file");
     OPB; c.reset(); d.add("destroyed");
 }
-struct BodyDef { std::string name; std::function<void(const std::string&, Digest&)> run; };
+struct BodyDef { std::string name; std::function<void(const std::string&, Digest&)> run; bool needsPair = false; };
+
+// ---- a PAIR of objects, one derived from the other: B is filled with frames and parameters taken out of A (by reference to A's stored
+// elements, through every hand-over path). From then on they are two independent objects: thread 0 edits A, thread 1 edits B.
+static std::unique_ptr<C3D> g_pair[2]; static std::string g_pairInput;
+NOINST static void preparePair() {
+    g_pair[0].reset(new C3D(g_pairInput)); g_pair[1].reset(new C3D()); C3D& A = *g_pair[0]; C3D& B = *g_pair[1];
+    B.parameter("POINT", A.parameters().group("POINT").parameter("RATE")); B.parameter("ANALOG", A.parameters().group("ANALOG").parameter("RATE"));
+    for (size_t i = 0; i < A.parameters().group("EXTRA").nbParameters(); ++i) B.parameter("EXTRA", A.parameters().group("EXTRA").parameter(i));
+    for (auto& n : A.parameters().group("POINT").parameter("LABELS").valuesAsString()) B.point(n);
+    for (auto& n : A.parameters().group("ANALOG").parameter("LABELS").valuesAsString()) B.analog(n);
+    B.frame(A.data().frame(0), 0);                       // explicit index at the end of an empty data set
+    B.frame(A.data().frame(1), 1);                       // explicit index at the end
+    B.frame(A.data().frame(2));                          // append
+    { Frame copy = A.data().frame(0); B.frame(copy, 4); }   // a caller-side copy, past the end (leaves a gap frame at 3)
+    B.frame(A.data().frame(1), 3);                       // fills the gap: replacement
+}
+static void bodyPairEdit(int k, const std::string& dir, Digest& d) {
+    C3D& c = *g_pair[k]; const char* pn = k ? "extraB" : "extraA"; const char* cn = k ? "chanB" : "chanA";
+    OPB; snapTo(d, c, "start");
+    OPB; Outcome oc = guarded([&] { c.point(pn); }); d.add(std::string("point ") + outcomeName(oc)); snapTo(d, c, "column");
+    OPB; oc = guarded([&] { c.analog(cn); }); d.add(std::string("channel ") + outcomeName(oc)); snapTo(d, c, "channel");
+    OPB; oc = guarded([&] { c.data().frame(0).points_nonConst().point_nonConst(0).x(k ? -2222.5f : 1111.5f); c.data().frame(1).analogs_nonConst().subframe_nonConst(0).channel_nonConst(0).data(k ? -3.5f : 7.5f); }); d.add(std::string("edit ") + outcomeName(oc)); snapTo(d, c, "edited");
+    OPB; oc = guarded([&] { Param p("OWNER"); p.set(k ? 2 : 1); c.parameter("EXTRA", p); c.lockGroup("EXTRA"); }); d.add(std::string("param ") + outcomeName(oc)); snapTo(d, c, "param");
+    OPB; std::string p = dir + "/out.c3d"; oc = guarded([&] { c.write(p); }); d.add(std::string("save ") + outcomeName(oc)); fileTo(d, p, "file");
+    OPB; snapTo(d, c, "end");
+}
 
 static std::vector<BodyDef> makeBodies(const std::string& scratch) {
     // input files (written once, read-only afterwards; every thread reads its OWN copy)
@@ -149,7 +175,10 @@ static std::vector<BodyDef> makeBodies(const std::string& scratch) {
     std::string fA = mk("inA.c3d", "frames=3;events=2"), fA2 = mk("inA2.c3d", "frames=3;events=2"), fB = mk("inB.c3d", "zeros=7;extra=all;values=special"), fC = mk("inC.c3d", "points=3;chans=1;order=paramsFirst");
     std::string fU = mk("inU.c3d", "points=3;labels=fewer;alabels=fewer;frames=3"), fU2 = mk("inU2.c3d", "points=3;chans=3;labels=fewer;alabels=fewer");
     std::string fM = mk("inM.c3d", "optparams=minimal;chans=1;points=1"), fR = mk("inR.c3d", "optparams=rich;points=1");   // files that lack DIFFERENT optional parameters (the library adds the missing ones when a column is added)
+    g_pairInput = fA;
     std::vector<BodyDef> b;
+    b.push_back({"pair.A", [](const std::string& d, Digest& g) { bodyPairEdit(0, d, g); }, true});
+    b.push_back({"pair.B", [](const std::string& d, Digest& g) { bodyPairEdit(1, d, g); }, true});
     b.push_back({"edit(M)", [fM](const std::string& d, Digest& g) { bodyEdit(d, fM, g); }});
     b.push_back({"edit(R)", [fR](const std::string& d, Digest& g) { bodyEdit(d, fR, g); }});
     b.push_back({"loadsave(U)", [fU](const std::string& d, Digest& g) { bodyLoadSave(d, fU, g); }});
@@ -168,6 +197,7 @@ struct ExecOut { std::vector<std::string> digests; std::vector<uint64_t> fine, c
 static ExecOut execute(const std::vector<BodyDef>& defs, const std::vector<int>& which, const std::string& scratch, const std::vector<Preempt>& plan, int first) {
     int n = (int)which.size(); g_nThreads = n; for (int i = 0; i < MAXT; ++i) g_ts[i] = TS(); g_plan = plan; g_planPos = 0; for (auto& x : g_preemptFn) x = nullptr;
     std::vector<Digest> dg((size_t)n); std::vector<std::thread> th;
+    { bool pair = false; for (int w : which) if (defs[(size_t)w].needsPair) pair = true; if (pair) preparePair(); }   // by the main thread, before any managed thread exists
     g_current.store(-1); g_active = true;
     for (int i = 0; i < n; ++i) {
         std::string dir = scratch + "/t" + std::to_string(i); mkdir(dir.c_str(), 0755);
@@ -227,7 +257,7 @@ int main(int argc, char** argv) {
     bool thorough = tier == "thorough";
     std::vector<BodyDef> defs = makeBodies(scratch);
     auto idx = [&](const std::string& n) { for (size_t i = 0; i < defs.size(); ++i) if (defs[i].name == n) return (int)i; return -1; };
-    std::vector<std::vector<int>> groups = {{idx("loadsave(U)"), idx("loadsave(U')")}, {idx("loadsave(A)"), idx("loadsave(A')")}, {idx("loadsave(A)"), idx("build(0)")}, {idx("build(0)"), idx("build(1)")}, {idx("loadsave(B)"), idx("edit(C)")}, {idx("edit(M)"), idx("edit(C)")}};
+    std::vector<std::vector<int>> groups = {{idx("loadsave(U)"), idx("loadsave(U')")}, {idx("loadsave(A)"), idx("loadsave(A')")}, {idx("loadsave(A)"), idx("build(0)")}, {idx("build(0)"), idx("build(1)")}, {idx("loadsave(B)"), idx("edit(C)")}, {idx("edit(M)"), idx("edit(C)")}, {idx("pair.A"), idx("pair.B")}};
     if (thorough) { groups.push_back({idx("edit(C)"), idx("build(1)")}); groups.push_back({idx("loadsave(A)"), idx("loadsave(B)")}); groups.push_back({idx("loadsave(A)"), idx("build(0)"), idx("edit(C)")}); groups.push_back({idx("edit(M)"), idx("edit(R)")}); }
     auto jstr = [](const std::string& s) { std::string o = "\""; for (unsigned char ch : s) { if (ch == '"' || ch == '\\') { o += '\\'; o += (char)ch; } else if (ch == '\n') o += "\\n"; else if (ch < 32 || ch > 126) o += '?'; else o += (char)ch; } return o + "\""; };
     auto groupName = [&](const std::vector<int>& g) { std::string s; for (int b : g) { if (!s.empty()) s += " || "; s += defs[(size_t)b].name; } return s; };
